@@ -7,9 +7,9 @@
    spec_read and an independent writer spec_encode).  *)
 From Coq Require Import String.
 From Coq Require Import List ZArith NArith Bool Permutation.
-From Tele Require Import Lib.Bytes Lib.BytesN Gen.Consts Gen.GoFns Model.DecodeStack Model.Layout Model.LayoutRef
+From Tele Require Import Lib.Bytes Lib.BytesN Gen.Consts Gen.GoFns Model.DecodeStack Model.Layout Model.LayoutMulti Model.LayoutRef
   Model.Parse Proofs.LayoutArith Proofs.LayoutRead Proofs.LayoutWrite Proofs.WriterFacts
-  Proofs.WriterInv Proofs.ParseFacts Proofs.EncodeFacts Proofs.FormatExtras Proofs.GoFnsLayout.
+  Proofs.WriterInv Proofs.ParseFacts Proofs.EncodeFacts Proofs.FormatExtras Proofs.GoFnsLayout Proofs.MultiFacts.
 Import ListNotations.
 Open Scope N_scope.
 
@@ -152,6 +152,48 @@ Theorem C10_invariant_reachable : forall ops s, Inv s -> all_small s ops ->
   Inv (snd (run_ops s ops)).
 Proof. exact run_ops_inv. Qed.
 Print Assumptions C10_invariant_reachable.
+
+(* ---- failing file growth.  step_f s o (Some k): the k-th file-system call of
+   the operation (extend = Stat, [WriteAt], then openMapped = OpenFile, Stat,
+   mmap's Stat) fails with an errno.  After EVERY operation of every sequence,
+   failed ones included, the file is well-formed and its allocation limit is
+   within the file (the limit is published only after a successful growth); a
+   failed operation changes no record and does not lower the limit. *)
+Theorem C10_writer_wf_with_failing_growth : forall meta s0 ops, meta_ok meta -> create [] meta = Some s0 ->
+  all_small_f s0 ops ->
+  forall n, let s := snd (run_fops s0 (firstn n ops)) in
+            wf_file (w_bs s) = true /\ limit_of (w_bs s) <= len (w_bs s).
+Proof. exact writer_wf_faults. Qed.
+Print Assumptions C10_writer_wf_with_failing_growth.
+
+Theorem C10_failed_op_changes_no_record : forall s o p rs, Inv s -> small s -> reads s rs ->
+  fst (step_f s o p) = RFail -> reads (snd (step_f s o p)) rs /\
+  limit_of (w_bs s) <= limit_of (w_bs (snd (step_f s o p))) /\
+  limit_of (w_bs (snd (step_f s o p))) <= len (w_bs (snd (step_f s o p))).
+Proof. exact failed_op_changes_no_record. Qed.
+Print Assumptions C10_failed_op_changes_no_record.
+
+(* ---- several writers starting on the same file that does not exist yet.
+   Model/LayoutMulti.cstep: openMapped of every writer split at its file-system
+   calls (OpenFile, Stat, WriteAt(header, 0), WriteAt(4 zero bytes, 16380), Stat,
+   mmap's Stat followed by the writer's newCounter / Add operations).  For EVERY
+   schedule (list of writer indices: all interleavings of any number of
+   writers, writers that stop anywhere included) the shared file is absent,
+   header-only, or well-formed; once it has its first page, limit <= size and an
+   independent reader finds exactly the abstract map of the operations performed
+   so far: the two creation writes are idempotent on a file that is in use. *)
+Theorem C10_racing_creation : forall meta h, meta_ok meta -> mapped_header meta = Some h ->
+  forall progs sched,
+  Forall (Forall count_op) progs -> csmall meta h (cinit [] progs) sched ->
+  let st := crun meta h (cinit [] progs) sched in
+  let m := snd (crun_abs meta h (cinit [] progs) (fun _ => None) sched) in
+  file_ok meta h (c_file st) /\
+  (16384 <= len (c_file st) ->
+     wf_file (c_file st) = true /\ limit_of (c_file st) <= len (c_file st) /\
+     exists rs, spec_records (c_file st) = Some rs /\ NoDup (map r_name rs) /\
+                forall k v, In (k, v) (pairs rs) <-> m k = Some v).
+Proof. exact race_ok. Qed.
+Print Assumptions C10_racing_creation.
 
 (* a well-formed file never makes a valid operation fail (no "corrupt", no
    endless extension): names of 1..4096 bytes get their record *)
